@@ -41,7 +41,10 @@ HOOK_HAVOC = ["message.finalized", "message.queued", "message.dropped"]
 
 
 def register(reg):
-    c05.register(reg)       # Message, circuits, trackers and the C05 contracts (verified there, assumed here)
+    c05.register(reg)
+    from contracts import events_contracts
+    if "hippolyzer.lib.base.events:Event.notify" not in reg.fns:
+        events_contracts.register_p(reg, "C19", also=["C07"])       # Message, circuits, trackers and the C05 contracts (verified there, assumed here)
     for k in ("hippolyzer.lib.base.message.circuit:Circuit.send@ProxiedCircuit", f"{MOD}:ProxiedCircuit.drop_message",
               f"{MOD}:ProxiedCircuit.prepare_message", "hippolyzer.lib.base.message.message:Message.take"):
         reg.fns[k].also.append(PID)     # the ownership guards this property rests on are re-verified in this check
